@@ -19,7 +19,8 @@ func parseDateTime(value ldvalue.Value) (time.Time, bool) {
 }
 
 func unixMillisToUtcTime(unixMillis float64) time.Time {
-	return time.Unix(0, int64(unixMillis)*int64(time.Millisecond)).UTC()
+	// time.UnixMilli avoids the int64 nanosecond overflow that time.Unix(0, ms*1e6) has after the year 2262
+	return time.UnixMilli(int64(unixMillis)).UTC()
 }
 
 func parseRegexp(value ldvalue.Value) *regexp.Regexp {
